@@ -552,3 +552,6 @@ T("fixes.fix_if_assign",   # F02-7
   "def f(a, b):\n    if a:\n        v = 5\n    elif b:\n        v = True\n    else:\n        v = False\n    return v\nprint(f(1, 1), f(0, 1), f(0, 0))\n")
 T("fixes.early_continue",  # F02-10
   "out = []\nfor i in range(2):\n    if i >= 0:\n        for j in range(2):\n            if j >= 0:\n                out.append(1)\n                out.append(2)\n                out.append(3)\n                out.append(4)\n                out.append(5)\n                out.append(6)\n        out.append(7)\n        out.append(8)\n        out.append(9)\n        out.append(10)\n        out.append(11)\nprint(out)\n")
+T("fixes.breakout_common_code_in_ifs",  # F02-12: tail move when the if ends its block and a dedented line follows
+  "def e(x):\n    print(x)\ndef f(a):\n    if a:\n        e(2)\n        e(1)\n    else:\n        e(3)\n        e(1)\nprint(f(1), f(0))\n",
+  "def e(x):\n    print(x)\ndef f(a, b):\n    if b:\n        if a:\n            e(2)\n            e(1)\n        else:\n            e(3)\n            e(1)\n    else:\n        e(4)\n    for _k in (0, 1):\n        if a:\n            e(5)\n            e(b)\n        else:\n            e(b)\n    return a\nprint(f(1, 0), f(0, 1))\n")
